@@ -32,12 +32,21 @@ SCALAR = {"e": "f32", "d": []}
 
 # ----------------------------------------------------------------------------- types
 def ty_str(ty) -> str:
-    """Canonical rendering of an abstract type: '<onnx elem code>:[d0,d1,…]' ('?' = unknown dim)."""
+    """Canonical rendering of an abstract type: '<onnx elem code>:[d0,d1,…]' ('?' = unknown dim),
+    'seq(T)' and 'opt(T)' for sequence and optional types."""
+    if "seq" in ty:
+        return "seq(" + ty_str(ty["seq"]) + ")"
+    if "opt" in ty:
+        return "opt(" + ty_str(ty["opt"]) + ")"
     return f"{ELEMS[ty['e']][1]}:[" + ",".join("?" if d is None else str(d) for d in ty["d"]) + "]"
 
 
 def proto_ty_str(tp) -> str:
-    """The same rendering of an onnx TypeProto (tensor types only)."""
+    """The same rendering of an onnx TypeProto."""
+    if tp.HasField("sequence_type"):
+        return "seq(" + proto_ty_str(tp.sequence_type.elem_type) + ")"
+    if tp.HasField("optional_type"):
+        return "opt(" + proto_ty_str(tp.optional_type.elem_type) + ")"
     if not tp.HasField("tensor_type"):
         return "non-tensor"
     tt = tp.tensor_type
@@ -54,13 +63,22 @@ def proto_ty_str(tp) -> str:
     return f"{tt.elem_type}:[" + ",".join(dims) + "]"
 
 
-def gen_type(rng: random.Random):
+def gen_type(rng: random.Random, tensor_only=False):
+    r = rng.random()
+    if not tensor_only and r < 0.10:
+        return {"seq": gen_type(rng, True)}
+    if not tensor_only and r < 0.17:
+        return {"opt": gen_type(rng, True) if rng.random() < 0.7 else {"seq": gen_type(rng, True)}}
     e = rng.choice(list(ELEMS))
     rank = rng.choice([0, 1, 1, 2, 2, 3])
     return {"e": e, "d": [rng.choice([0, 1, 1, 2, 3, "N", "M", "K", None, None]) for _ in range(rank)]}
 
 
 def feed_for(ty, rng: random.Random):
+    if "seq" in ty:
+        return [feed_for(ty["seq"], rng) for _ in range(rng.randrange(1, 4))]
+    if "opt" in ty:
+        return feed_for(ty["opt"], rng) if rng.random() < 0.6 else None
     shape = [SYM[d] if isinstance(d, str) else (2 if d is None else d) for d in ty["d"]]
     dt = ELEMS[ty["e"]][0]
     n = int(np.prod(shape)) if shape else 1
@@ -112,9 +130,9 @@ class _Gen:
             r = rng.random()
             if pending and rng.random() < 0.7:
                 nd = self.new({"k": "lift", "a": pending.pop()})
-            elif r < 0.05 and depth == 0 and [i for i in vis_any if self.info[i]["k"] == "arg"]:
+            elif r < 0.05 and depth == 0 and [i for i in vis_any if self.info[i]["k"] == "arg" and "e" in self.info[i]["ty"]]:
                 # a non-scalar value: Cast(argument) keeps the argument's dims (constant, zero, symbolic, unknown)
-                nd = self.new({"k": "tcast", "a": rng.choice([i for i in vis_any if self.info[i]["k"] == "arg"])})
+                nd = self.new({"k": "tcast", "a": rng.choice([i for i in vis_any if self.info[i]["k"] == "arg" and "e" in self.info[i]["ty"]])})
                 nodes.append(nd)
                 vis_any.append(nd["id"])
                 continue
@@ -181,6 +199,14 @@ def gen_program(rng: random.Random, n_args=None, size=None, max_depth=3, domains
     scs = [n["id"] for n in top if n["k"] != "arg"]
     blk = g.block(0, args, scs, size, [], [])
     top.extend(blk["nodes"])
+    if rng.random() < 0.3:
+        # model-local functions (spox Function nodes: own FunctionProto, domain, opset imports). Made last, so
+        # no subgraph body refers to them (runtimes refuse functions that are only used inside a body)
+        scal = [n["id"] for n in top if n["k"] not in ("arg", "tcast")]
+        for _ in range(rng.randrange(1, 3)):
+            if scal:
+                top.append(g.new({"k": "fun", "f": rng.randrange(2), "a": rng.choice(scal), "b": rng.choice(scal)}))
+                scal.append(top[-1]["id"])
     multi = None
     if domains:
         # one value that needs several operator domains at once: "" + ai.onnx.ml + 1-3 custom domains
@@ -277,7 +303,7 @@ def free_args(prog, out_ids):
             s = set()
         elif k in ("lift", "neg", "bin", "tcast", "cust"):
             s = set(of(nd["a"]))
-        elif k in ("add", "mul"):
+        elif k in ("add", "mul", "fun"):
             s = of(nd["a"]) | of(nd["b"])
         elif k == "if":
             s = of(nd["a"]) | of(nd["b"]) | of_block(nd["then"]) | of_block(nd["else"])
@@ -344,6 +370,19 @@ def to_objs(prog):
 
 
 # ----------------------------------------------------------------------------- realisation with the real constructors
+def lift_var(op, v):
+    """An f32 scalar that depends on `v`, whatever its type: sum of a tensor's elements, length of a
+    sequence, presence of an optional."""
+    import spox
+
+    t = v.type
+    if isinstance(t, spox.Sequence):
+        return op.cast(op.sequence_length(v), to=np.float32)
+    if isinstance(t, spox.Optional):
+        return op.cast(op.optional_has_element(v), to=np.float32)
+    return op.reduce_sum(op.cast(v, to=np.float32), keepdims=0)
+
+
 def realize(prog, op=None):
     """Create the program with the real spox constructors. Returns {id: Var-or-junk}."""
     import spox
@@ -351,8 +390,25 @@ def realize(prog, op=None):
     if op is None:
         import spox.opset.ai.onnx.v17 as op
     env = {}
+    funcs = {}
+
+    def function(j):
+        """F0(a, b) = a*b + a, F1(a, b) = -a + b, as ONNX functions when this tree can make them."""
+        if j not in funcs:
+            body = (lambda a, b: [op.add(op.mul(a, b), a)]) if j == 0 else (lambda a, b: [op.add(op.neg(a), b)])
+            try:
+                from spox._function import to_function
+
+                funcs[j] = to_function(f"F{j}", "verif.func")(body)
+            except Exception:  # noqa: BLE001 - no such helper on this tree: plain operators instead
+                funcs[j] = body
+        return funcs[j]
 
     def tensor(ty):
+        if "seq" in ty:
+            return spox.Sequence(tensor(ty["seq"]))
+        if "opt" in ty:
+            return spox.Optional(tensor(ty["opt"]))
         return spox.Tensor(ELEMS[ty["e"]][0], tuple(ty["d"]))
 
     def block_results(blk):
@@ -371,7 +427,7 @@ def realize(prog, op=None):
             elif k == "const":
                 env[i] = op.const(np.float32(nd["v"]))
             elif k == "lift":
-                env[i] = op.reduce_sum(op.cast(env[nd["a"]], to=np.float32), keepdims=0)
+                env[i] = lift_var(op, env[nd["a"]])
             elif k == "tcast":
                 env[i] = op.cast(env[nd["a"]], to=np.float32)
             elif k == "add":
@@ -380,6 +436,8 @@ def realize(prog, op=None):
                 env[i] = op.mul(env[nd["a"]], env[nd["b"]])
             elif k == "neg":
                 env[i] = op.neg(env[nd["a"]])
+            elif k == "fun":
+                (env[i],) = function(nd["f"])(env[nd["a"]], env[nd["b"]])
             elif k == "cust":
                 env[i] = spox.inline(custom_model(nd["j"]))(x=env[nd["a"]])["z"]
             elif k == "bin":
@@ -426,7 +484,14 @@ def evaluate(prog, feeds, out_ids):
         elif k == "const":
             v = np.float32(nd["v"])
         elif k == "lift":
-            v = np.float32(np.asarray(ev(nd["a"], env)).astype(np.float32).sum())
+            x = ev(nd["a"], env)
+            ta = abstract_type(prog, nd["a"])
+            if "seq" in ta:
+                v = np.float32(len(x))
+            elif "opt" in ta:
+                v = np.float32(0.0 if x is None else 1.0)
+            else:
+                v = np.float32(np.asarray(x).astype(np.float32).sum())
         elif k == "tcast":
             v = np.asarray(ev(nd["a"], env)).astype(np.float32)
         elif k == "add":
@@ -435,6 +500,9 @@ def evaluate(prog, feeds, out_ids):
             v = np.float32(ev(nd["a"], env) * ev(nd["b"], env))
         elif k == "neg":
             v = np.float32(-ev(nd["a"], env))
+        elif k == "fun":
+            a_, b_ = ev(nd["a"], env), ev(nd["b"], env)
+            v = np.float32(a_ * b_ + a_) if nd["f"] == 0 else np.float32(-a_ + b_)
         elif k == "cust":
             raise ValueError("custom-domain operators have no reference semantics")
         elif k == "bin":
@@ -477,7 +545,8 @@ def gen_request(rng: random.Random, prog, *, allow_bad=True, allow_dup=False):
     inits = [n["id"] for n in top if n["k"] == "init"]
     junk = [n["id"] for n in top if n["k"] == "junk"]
     n_out = rng.choice([1, 1, 2, 3])
-    pool = vals * 3 + args + [n["id"] for n in top if n["k"] == "tcast"] * 3  # an argument passed straight through as an output is allowed
+    # (onnxruntime refuses Identity on optional types, so optional arguments are not passed straight through)
+    pool = vals * 3 + [n["id"] for n in top if n["k"] == "arg" and "opt" not in n["ty"]] + [n["id"] for n in top if n["k"] == "tcast"] * 3  # an argument passed straight through as an output is allowed
     outs = []
     for _ in range(n_out):
         c = rng.choice(pool)
